@@ -93,6 +93,40 @@ impl JobQueue {
     }
 
     ///
+    /// Marks this queue as panicked on behalf of a job that panicked somewhere other than in the thread that is running the queue
+    /// (the future passed to `future_sync` runs in the task that is awaiting it)
+    ///
+    /// Whatever is running the queue must already have been told to re-raise the panic. If nothing is inside the queue it is marked
+    /// here; otherwise this waits until the runner has marked it, so that nothing can be scheduled on the queue in between.
+    ///
+    pub (super) fn mark_panicked_from_outside(&self) {
+        loop {
+            {
+                // (This is called while the thread is unwinding, so a poisoned lock must not cause a second panic)
+                let mut core = match self.core.lock() { Ok(core) => core, Err(_) => { return; } };
+
+                match core.state {
+                    // Already done
+                    QueueState::Panicked            => { return; }
+
+                    // Nothing is inside the queue at the moment, so it can be marked from here
+                    QueueState::Idle                |
+                    QueueState::Pending             |
+                    QueueState::WaitingForWake      |
+                    QueueState::WaitingForPoll(_)   => { core.state = QueueState::Panicked; return; }
+
+                    // Something is running the queue (or is parked inside it and has just been woken): it will mark the queue itself
+                    QueueState::Running             |
+                    QueueState::AwokenWhileRunning  |
+                    QueueState::WaitingForUnpark    => { }
+                }
+            }
+
+            thread::yield_now();
+        }
+    }
+
+    ///
     /// Adds a job to the front of the queue (so it's the next one to run)
     ///
     pub (super) fn requeue(&self, job: Box<dyn ScheduledJob>) {
